@@ -286,6 +286,28 @@ def ffoHeader (forkCount : Nat) (i : InfoFork) (dataSize : Nat) : Bytes :=
   i.encode ++
   [0x44, 0x41, 0x54, 0x41] ++ [0, 0, 0, 0] ++ [0, 0, 0, 0] ++ be32 dataSize
 
+/-- The all-zero information fork a `flattenedFileObject` holds before anything is written to it. -/
+def InfoFork.zero : InfoFork :=
+  ⟨[0, 0, 0, 0], [0, 0, 0, 0], [0, 0, 0, 0], [0, 0, 0, 0], [0, 0, 0, 0], List.replicate 32 0,
+   List.replicate 8 0, List.replicate 8 0, [0, 0], [], []⟩
+
+/-- `flattenedFileObject.ReadFrom` on exactly the bytes `p` (the parser an upload goes through):
+    24-byte header, 16-byte INFO fork header, `DataSize` bytes handed to `InfoFork.decode` in ONE
+    `Write` call (none when the size is 0), 16-byte DATA fork header.  A short stream is an error.
+    Result: fork count (low 16 bits at offset 22), information fork, declared data size. -/
+def ffoDecode (p : Bytes) : Res (Nat × InfoFork × Nat) :=
+  if p.length < 40 then .err
+  else
+    let dl := rd32 (p.drop 36)
+    if p.length < 40 + dl then .err
+    else
+      match (if dl = 0 then Res.ok InfoFork.zero else InfoFork.decode ((p.drop 40).take dl)) with
+      | .ok i =>
+        if p.length < 40 + dl + 16 then .err
+        else .ok (rd16 (p.drop 22), i, rd32 (p.drop (40 + dl + 12)))
+      | .err => .err
+      | .panic => .panic
+
 /-- Fork header: type(4) compression(4) rsvd(4) size(4). -/
 def forkHeader (ty : Bytes) (size : Nat) : Bytes := ty ++ [0, 0, 0, 0] ++ [0, 0, 0, 0] ++ be32 size
 
